@@ -2,11 +2,12 @@ SPECIFICATION Spec
 CONSTANTS
   K = 12
   MaxSlits = 2
-  BeamPos = {0, 5}
+  BeamPos = {5}
   Phases <- MC_PhasesQ
   Ratios <- MC_RatiosQ
   MaxPulses = 3
   MaxTurns = 12
+  Pick = 0
   Bug = "perpulse"
 INVARIANT TypeOK
 INVARIANT RejectedIffOverlap
